@@ -40,6 +40,11 @@ const (
 	kIface
 	kSliceIface
 	kStructVal
+	kMapIntPair
+	kSlicePair
+	kArrStr
+	kAny
+	kSliceAny
 	nKinds
 )
 
@@ -68,6 +73,11 @@ var kindInfo = map[kind][3]string{
 	kIface:          {"sI", "Shape", "nil"},
 	kSliceIface:     {"sSIf", "[]Shape", "nil"},
 	kStructVal:      {"sV", "Pair", "Pair{}"},
+	kMapIntPair:     {"sMIP", "map[int]Pair", "make(map[int]Pair)"},
+	kSlicePair:      {"sSP", "[]Pair", "nil"},
+	kArrStr:         {"sAS", "[3]string", "[3]string{}"},
+	kAny:            {"sA", "interface{}", "nil"},
+	kSliceAny:       {"sSA", "[]interface{}", "nil"},
 }
 
 // Driver is a generated program.
@@ -136,6 +146,16 @@ func hashExpr(k kind, e string) string {
 		return "hSIf(" + e + ")"
 	case kStructVal:
 		return "hV(" + e + ")"
+	case kMapIntPair:
+		return "hMIP(" + e + ")"
+	case kSlicePair:
+		return "hSP(" + e + ")"
+	case kArrStr:
+		return "hAS(" + e + ")"
+	case kAny:
+		return "hA(" + e + ")"
+	case kSliceAny:
+		return "hSA(" + e + ")"
 	}
 	panic("hashExpr")
 }
@@ -336,6 +356,108 @@ func hV(p: Pair) => i64 {
 	return h
 }
 
+func hMIP(m: map[int]Pair) => i64 {
+	h: i64 = 0
+	for k, v := range m {
+		h += mix(i64(k), hV(v))
+	}
+	return mix(h, i64(len(m)))
+}
+
+func hSP(s: []Pair) => i64 {
+	h: i64 = 84
+	for _, v := range s {
+		h = mix(h, hV(v))
+	}
+	return mix(h, i64(len(s)))
+}
+
+func hAS(a: [3]string) => i64 {
+	h: i64 = 85
+	for _, v := range a {
+		h = mix(h, hStr(v))
+	}
+	return h
+}
+
+func hA(x: interface{}) => i64 {
+	switch v := x.(type) {
+	case nil:
+		return -11
+	case int:
+		return mix(1, i64(v))
+	case string:
+		return mix(2, hStr(v))
+	case []int:
+		return mix(3, hSI(v))
+	case *Node:
+		return mix(4, hN(v))
+	case Pair:
+		return mix(5, hV(v))
+	case f64:
+		return mix(6, i64(v*8))
+	}
+	return -12
+}
+
+func hSA(s: []interface{}) => i64 {
+	h: i64 = 86
+	for _, v := range s {
+		h = mix(h, hA(v))
+	}
+	return mix(h, i64(len(s)))
+}
+
+func mkPair(a: int, s: string, v: []int, n: *Node) => Pair {
+	return Pair{a: a, s: s + "!", v: v, n: n}
+}
+
+func mkArr(s: string, t: string) => [3]string {
+	return [3]string{s, t, s + t}
+}
+
+func twoStr(s: string, n: int) => (string, string) {
+	if n%3 == 0 {
+		return s, s + "0"
+	}
+	t := s + itoa(n)
+	if n%3 == 1 {
+		return t, s
+	}
+	return t + "z", t
+}
+
+func namedResult(s: string, n: int) => (r: string) {
+	defer func() {
+		if n%2 == 0 {
+			r = r + "d"
+		}
+	}()
+	r = s + "n"
+	if n%5 == 0 {
+		return "five"
+	}
+	return
+}
+
+func earlyExit(s: []int, t: string, n: int) => int {
+	u := append(s, n)
+	w := t + "e"
+	if n%4 == 0 {
+		return len(u)
+	}
+	x := u[:len(u)/2]
+	if n%4 == 1 {
+		return len(x) + len(w)
+	}
+	for i := range x {
+		if x[i] == n {
+			return i
+		}
+	}
+	return len(w)
+}
+
 func itoa(v: int) => string {
 	if v == 0 {
 		return "0"
@@ -378,6 +500,12 @@ func Generate(r Rand) *Driver {
 	if want[kSliceIface] {
 		want[kIface] = true
 	}
+	if want[kMapIntPair] || want[kSlicePair] {
+		want[kStructVal] = true
+	}
+	if want[kSliceAny] {
+		want[kAny] = true
+	}
 	for k := kind(0); k < nKinds; k++ {
 		if want[k] {
 			in := kindInfo[k]
@@ -387,6 +515,7 @@ func Generate(r Rand) *Driver {
 	}
 	g.genericOps()
 	g.kindOps()
+	g.formOps()
 	return g.emit()
 }
 
@@ -536,6 +665,99 @@ func (g *gen) kindOps() {
 		g.add("Pair field load", fmt.Sprintf("%s = %s.s\n%s = %s.v\nreturn hStr(%s) + hSI(%s)", S(kStr, "b"), v("a"), si("c"), v("a"), S(kStr, "b"), si("c")))
 		g.add("Pair array of values", fmt.Sprintf("arr: [3]Pair\narr[0] = %s\narr[1] = %s\narr[2] = arr[0]\narr[0].a = c\nreturn hV(arr[0]) + hV(arr[1]) + hV(arr[2])", v("a"), v("b")))
 		g.add("Pair pointer round trip", fmt.Sprintf("p := &%s\np.a = p.a + 1\nq := *p\n%s = q\nreturn hV(q)", v("a"), v("b")))
+	}
+}
+
+// formOps adds operations whose point is the syntactic form (which SSA
+// instruction and which retain/release emission path it reaches), not the
+// data structure: field selection on call results and map elements, indexing
+// array values, phi merges, tuple extraction, named results with defer, early
+// returns, captured variables, dropped results.
+func (g *gen) formOps() {
+	S := g.slot
+	si := func(i string) string { return S(kSliceInt, i) }
+	str := func(i string) string { return S(kStr, i) }
+	nd := "nil"
+	if g.has(kNode) {
+		nd = S(kNode, "c")
+	}
+	g.add("field of call result (string)", fmt.Sprintf("%s = mkPair(b, %s, %s, %s).s\nreturn hStr(%s)", str("a"), str("b"), si("c"), nd, str("a")))
+	g.add("field of call result ([]int)", fmt.Sprintf("%s = mkPair(b, %s, %s, %s).v\nreturn hSI(%s)", si("a"), str("b"), si("c"), nd, si("a")))
+	g.add("field of call result (int), value dropped", fmt.Sprintf("return i64(mkPair(b, %s, %s, %s).a)", str("b"), si("c"), nd))
+	g.add("index of array-valued call result", fmt.Sprintf("%s = mkArr(%s, %s)[c%%3]\nreturn hStr(%s)", str("a"), str("b"), str("c"), str("a")))
+	g.add("array value local, element copy", fmt.Sprintf("arr := mkArr(%s, %s)\nbrr := arr\nbrr[c%%3] = \"q\"\n%s = arr[b%%3] + brr[c%%3]\nreturn hStr(%s)", str("b"), str("c"), str("a"), str("a")))
+	g.add("phi merge of strings", fmt.Sprintf("x := %s\nif c%%2 == 0 {\nx = %s\n} else if c%%3 == 0 {\nx = x + \"p\"\n}\n%s = x\nreturn hStr(x)", str("a"), str("b"), str("c")))
+	g.add("loop-carried string", fmt.Sprintf("x := %s\nfor i := 0; i < c%%4; i++ {\nif len(x) < 100 {\nx = x + itoa(i)\n}\n}\n%s = x\nreturn hStr(x)", str("b"), str("a")))
+	g.add("loop-carried slice", fmt.Sprintf("x := %s\nfor i := 0; i < c%%4; i++ {\nif len(x) < 50 {\nx = append(x, i)\n} else {\nx = x[1:]\n}\n}\n%s = x\nreturn hSI(x)", si("b"), si("a")))
+	g.add("parallel assignment swap", fmt.Sprintf("%s, %s = %s, %s\nreturn hStr(%s)", str("a"), str("b"), str("b"), str("a"), str("a")))
+	g.add("tuple extraction", fmt.Sprintf("x, y := twoStr(%s, c)\n%s = y\nreturn hStr(x)", str("b"), str("a")))
+	g.add("tuple result half dropped", fmt.Sprintf("x, _ := twoStr(%s, c)\n%s = x\nreturn hStr(x)", str("b"), str("a")))
+	g.add("result dropped entirely", fmt.Sprintf("twoStr(%s, c)\nmkPair(b, %s, %s, %s)\nreturn 3", str("b"), str("a"), si("c"), nd))
+	g.add("named result modified by defer", fmt.Sprintf("%s = namedResult(%s, c)\nreturn hStr(%s)", str("a"), str("b"), str("a")))
+	g.add("early exits with live locals", fmt.Sprintf("return i64(earlyExit(%s, %s, c))", si("a"), str("b")))
+	g.add("captured variable modified by closure", fmt.Sprintf("x := %s\nf := func() {\nif len(x) < 100 {\nx = x + \"c\"\n}\n}\nf()\nif c%%2 == 0 {\nf()\n}\n%s = x\nreturn hStr(x)", str("b"), str("a")))
+	g.add("captured slice modified by closure", fmt.Sprintf("x := %s\nf := func(v: int) {\nif len(x) < 50 {\nx = append(x, v)\n}\n}\nf(b)\nf(c)\n%s = x\nreturn hSI(x)", si("b"), si("a")))
+	g.add("map key from temporary string", fmt.Sprintf("m := make(map[string]int)\nm[%s+itoa(c%%3)] = b\nm[\"t\"+itoa(b%%3)] += c\nv := m[%s+\"0\"]\nreturn i64(v) + i64(len(m))", str("b"), str("b")))
+	g.add("string comparison and switch", fmt.Sprintf("x := %s\nswitch {\ncase x == %s:\nreturn 1\ncase x < %s:\nreturn 2\ncase x == \"n\"+itoa(c):\nreturn 3\n}\nreturn 4", str("a"), str("b"), str("b")))
+	g.add("range over string", fmt.Sprintf("h: i64 = 5\nfor i, r := range %s {\nh = mix(h, i64(r)+i64(i))\n}\nreturn h", str("a")))
+	g.add("range over slice with value copy", fmt.Sprintf("t: []int\nfor _, v := range %s {\nif v%%2 == c%%2 {\nt = append(t, v)\n}\n}\n%s = t\nreturn hSI(t)", si("b"), si("a")))
+	g.add("pointer to slot element", fmt.Sprintf("p := &%s\n*p = append(*p, c)\nq := &%s\n*q = *q + \"&\"\nif len(*q) > 150 {\n*q = \"\"\n}\nif len(*p) > 60 {\n*p = nil\n}\nreturn hSI(*p) + hStr(*q)", si("a"), str("b")))
+	if g.has(kNode) {
+		n := func(i string) string { return S(kNode, i) }
+		g.add("nested field through pointer", fmt.Sprintf("p := %s\nif p != nil && p.next != nil {\n%s = p.next.name\n%s = p.next.items\n}\nreturn hStr(%s)", n("a"), str("b"), si("c"), str("b")))
+		g.add("pointer to field", fmt.Sprintf("p := %s\nif p != nil {\nq := &p.items\n*q = append(*q, c)\nif len(*q) > 40 {\n*q = nil\n}\nr := &p.name\n*r = *r + \"f\"\nif len(*r) > 100 {\n*r = \"\"\n}\n}\nreturn hN(p)", n("a")))
+	}
+	if g.has(kStructVal) {
+		v := func(i string) string { return S(kStructVal, i) }
+		g.add("struct value through call and field of slot", fmt.Sprintf("%s = mkPair(b, %s.s, %s.v, %s.n)\nreturn hV(%s)", v("a"), v("b"), v("c"), v("b"), v("a")))
+	}
+	if g.has(kMapIntPair) {
+		m := func(i string) string { return S(kMapIntPair, i) }
+		v := func(i string) string { return S(kStructVal, i) }
+		g.add("map[int]Pair insert", fmt.Sprintf("%s[b%%8] = %s\nreturn hMIP(%s)", m("a"), v("c"), m("a")))
+		g.add("map[int]Pair insert literal", fmt.Sprintf("%s[b%%8] = Pair{a: c, s: %s, v: %s}\nreturn hMIP(%s)", m("a"), str("b"), si("c"), m("a")))
+		g.add("field of map element (string)", fmt.Sprintf("%s = %s[b%%8].s\nreturn hStr(%s)", str("c"), m("a"), str("c")))
+		g.add("field of map element ([]int)", fmt.Sprintf("%s = %s[b%%8].v\nreturn hSI(%s)", si("c"), m("a"), si("c")))
+		g.add("map[int]Pair lookup comma-ok", fmt.Sprintf("p, ok := %s[b%%8]\nif ok {\n%s = p\nreturn hV(p)\n}\nreturn -1", m("a"), v("c")))
+		g.add("map[int]Pair delete", fmt.Sprintf("delete(%s, b%%8)\nreturn hMIP(%s)", m("a"), m("a")))
+	}
+	if g.has(kSlicePair) {
+		s := func(i string) string { return S(kSlicePair, i) }
+		v := func(i string) string { return S(kStructVal, i) }
+		g.add("append Pair", fmt.Sprintf("if len(%s) < 12 {\n%s = append(%s, %s)\n}\nreturn hSP(%s)", s("a"), s("a"), s("a"), v("b"), s("a")))
+		g.add("[]Pair element field store", fmt.Sprintf("if len(%s) > 0 {\n%s[b%%len(%s)].s = %s\n%s[b%%len(%s)].v = %s\n}\nreturn hSP(%s)", s("a"), s("a"), s("a"), str("c"), s("a"), s("a"), si("c"), s("a")))
+		g.add("[]Pair element load", fmt.Sprintf("if len(%s) > 0 {\n%s = %s[b%%len(%s)]\n}\nreturn hV(%s)", s("a"), v("c"), s("a"), s("a"), v("c")))
+		g.add("[]Pair reslice and overwrite", fmt.Sprintf("t := %s\nif len(t) > 1 {\nt[0] = t[len(t)-1]\n%s = t[:len(t)-1]\n}\nreturn hSP(%s)", s("a"), s("a"), s("a")))
+	}
+	if g.has(kArrStr) {
+		a := func(i string) string { return S(kArrStr, i) }
+		g.add("array slot element store", fmt.Sprintf("%s[b%%3] = %s\nreturn hAS(%s)", a("a"), str("c"), a("a")))
+		g.add("array slot element load", fmt.Sprintf("%s = %s[b%%3]\nreturn hStr(%s)", str("c"), a("a"), str("c")))
+		g.add("array from call", fmt.Sprintf("%s = mkArr(%s, %s)\nreturn hAS(%s)", a("a"), str("b"), str("c"), a("a")))
+		g.add("slice of array slot", fmt.Sprintf("t := %s[b%%3:]\nh: i64 = 1\nfor _, x := range t {\nh = mix(h, hStr(x))\n}\nreturn h", a("a")))
+	}
+	if g.has(kAny) {
+		x := func(i string) string { return S(kAny, i) }
+		g.add("box int", fmt.Sprintf("%s = b*3 + c\nreturn hA(%s)", x("a"), x("a")))
+		g.add("box string", fmt.Sprintf("%s = %s\nreturn hA(%s)", x("a"), str("b"), x("a")))
+		g.add("box []int", fmt.Sprintf("%s = %s\nreturn hA(%s)", x("a"), si("b"), x("a")))
+		g.add("box f64", fmt.Sprintf("%s = f64(b) / 8\nreturn hA(%s)", x("a"), x("a")))
+		if g.has(kNode) {
+			g.add("box *Node", fmt.Sprintf("%s = %s\nreturn hA(%s)", x("a"), S(kNode, "b"), x("a")))
+		}
+		if g.has(kStructVal) {
+			g.add("box Pair value", fmt.Sprintf("%s = %s\nreturn hA(%s)", x("a"), S(kStructVal, "b"), x("a")))
+			g.add("unbox Pair value", fmt.Sprintf("if p, ok := %s.(Pair); ok {\n%s = p\nreturn hV(p)\n}\nreturn -1", x("a"), S(kStructVal, "b")))
+		}
+		g.add("unbox string", fmt.Sprintf("if s, ok := %s.(string); ok {\n%s = s\nreturn hStr(s)\n}\nreturn -1", x("a"), str("b")))
+		g.add("unbox []int", fmt.Sprintf("if s, ok := %s.([]int); ok {\n%s = s\nreturn hSI(s)\n}\nreturn -1", x("a"), si("b")))
+		g.add("interface equality", fmt.Sprintf("if %s == %s {\nreturn 1\n}\nreturn 0", x("a"), x("b")))
+	}
+	if g.has(kSliceAny) {
+		s := func(i string) string { return S(kSliceAny, i) }
+		g.add("append interface{}", fmt.Sprintf("if len(%s) < 16 {\n%s = append(%s, %s)\n}\nreturn hSA(%s)", s("a"), s("a"), s("a"), S(kAny, "b"), s("a")))
+		g.add("append boxed literal values", fmt.Sprintf("if len(%s) < 16 {\n%s = append(%s, c, %s)\n}\nreturn hSA(%s)", s("a"), s("a"), s("a"), str("b"), s("a")))
+		g.add("elem load []interface{}", fmt.Sprintf("if len(%s) > 0 {\n%s = %s[b%%len(%s)]\n}\nreturn hA(%s)", s("a"), S(kAny, "c"), s("a"), s("a"), S(kAny, "c")))
 	}
 }
 
